@@ -78,8 +78,12 @@ func newFuncWarcRecordOption(f func(*warcRecordOptions)) *funcWarcRecordOption {
 	}
 }
 
-func defaultWarcRecordOptions() warcRecordOptions {
+func init() {
+	// EnableRandPool is not thread-safe and must be called before any uuid is generated.
 	uuid.EnableRandPool()
+}
+
+func defaultWarcRecordOptions() warcRecordOptions {
 	return warcRecordOptions{
 		warcVersion:              V1_1,
 		errSyntax:                ErrWarn,
